@@ -104,3 +104,18 @@ Example ex_run_with_failure :
   waiting s = None /\ started_ids (events s) = [1; 2; 3; 4] /\
   finished (events s) = [(1, Fail); (2, Ok); (3, Ok); (4, Ok)].
 Proof. vm_compute. repeat split. Qed.
+
+From Verif Require Import Gen.MutPins.
+From Coq Require Import String.
+(* Fingerprints (AST, comments and docstrings excluded) of the source functions this model
+   transcribes by hand, regenerated from /repo on every run (harness/translate/mutpins.py):
+   the model was written for exactly these versions of them. *)
+Theorem model_pins_current :
+  pins_C13 =
+  [("filenode_do_serialized", "49a58348bbc8e581")%string;
+   ("filenode_modify", "c74e998ef15ca065")%string;
+   ("filenode_overwrite", "aa41320d46a2086c")%string;
+   ("filenode_upload", "5a80db7b7adcfbc6")%string;
+   ("filenode_get_best_mutable_version", "79c2113dba6adaf7")%string].
+Proof. reflexivity. Qed.
+Print Assumptions model_pins_current.
